@@ -52,7 +52,7 @@ def main(tier):
                                        jointrun.run(rep, tier, {"valid", "final_valid", "all_valid"}, PID, n=80 if tier == "quick" else 2500),
                                        mcgroup.run_pool(rep, tier, {"valid", "allValid"}, PID),
                                        # "... or an error is handled under a policy that includes 'fail', and once False it never returns to True"
-                                       errruns.error_runs(rep, tier, JUDGED, groups=("core", "validity", "errors"), n=700 if tier == "quick" else 8000, salt=404)))
+                                       errruns.error_runs(rep, tier, JUDGED, groups=("core", "validity", "errors", "control"), n=1200 if tier == "quick" else 10000, salt=404)))
 
 
 def replay(path):
